@@ -6,7 +6,12 @@
 // with a global sequence number and the virtual time in ms.  The Lean driver (McpModel/Order/Driver)
 // checks that the log is a run of the proved model and evaluates the property monitor on it.
 //
-// Besides the SDK's own client there is a RAW streamable peer (transports rw, rwj, rh): it speaks HTTP
+// Wave 4: handler durations up to 90 s; sessionless servers sn/snj (GetSessionID returns ""), also for the raw peer
+// (rs = Stateless, rn = GetSessionID ""); transport run (Server.Run over pipes); calls whose context is cancelled
+// (kind x, cx=) with the receiving connection's Cancel goroutine scheduled late (cfg ck=, verif hook site K1);
+// callbacks CreateMessageWithTools / Elicit from inside handlers.
+//
+// Besides the SDK's own client there is a RAW streamable peer (transports rw, rwj, rh, rs, rn): it speaks HTTP
 // to the server side directly (ServeHTTP of a StreamableServerTransport that the test connected itself,
 // or of the StreamableHTTPHandler), with a legacy protocol version, and POSTs bodies that the SDK
 // client never produces: JSON-RPC batches of 1..16 messages (legal before 2025-06-18, the version
@@ -266,6 +271,9 @@ func (c *ordCase) cfgOp() string {
 			sub = " sub=" + sub
 		} else {
 			sub = ""
+		}
+		if c.ck > 0 {
+			sub += fmt.Sprintf(" ck=%d", c.ck)
 		}
 		return fmt.Sprintf("cfg tr=%s dir=%s pv=%s np=%d%s", c.tr, c.dir, strings.Join(c.pvs, ","), c.np, sub)
 	}
@@ -853,7 +861,7 @@ func ordRunCase(t *testing.T, out *verifOut, id string, c *ordCase) {
 			RootsListChangedHandler:     func(context.Context, *RootsListChangedRequest) {},
 			ProgressNotificationHandler: func(context.Context, *ProgressNotificationServerRequest) {},
 		}
-		if strings.HasPrefix(c.tr, "sn") {
+		if strings.HasPrefix(c.tr, "sn") || c.tr == "rn" {
 			sopts.GetSessionID = func() string { return "" } // no session ids: every POST gets a temporary session
 		}
 		server := NewServer(&Implementation{Name: "s", Version: "1"}, sopts)
@@ -925,8 +933,10 @@ func ordRunCase(t *testing.T, out *verifOut, id string, c *ordCase) {
 			}
 			ss = s
 			raw = &ordRaw{h: h, hc: &http.Client{Transport: &ordRT{h: tp}}, url: url}
-		case "rh":
-			hd := NewStreamableHTTPHandler(getServer, &StreamableHTTPOptions{})
+		case "rh", "rs", "rn":
+			// rs: a stateless handler; rn: a stateful handler of a server that hands out no session ids (sopts above):
+			// every POST of the raw peer — a whole JSON-RPC batch included — is served by one temporary session
+			hd := NewStreamableHTTPHandler(getServer, &StreamableHTTPOptions{Stateless: c.tr == "rs"})
 			cleanup = append(cleanup, hd.closeAll)
 			raw = &ordRaw{h: h, hc: &http.Client{Transport: &ordRT{h: hd}}, url: url}
 			if c.pv >= protocolVersion20250618 || len(c.msgs)%2 == 0 {
@@ -1172,7 +1182,9 @@ func ordDur(rng *rand.Rand) int {
 // ordSessionless: every POST of the client is served by a temporary session of its own — a stateless
 // StreamableHTTPHandler (sl, slj) or a stateful one whose server hands out no session ids
 // (ServerOptions.GetSessionID returns "": sn, snj).
-func ordSessionless(tr string) bool { return strings.HasPrefix(tr, "sl") || strings.HasPrefix(tr, "sn") }
+func ordSessionless(tr string) bool {
+	return strings.HasPrefix(tr, "sl") || strings.HasPrefix(tr, "sn") || tr == "rs" || tr == "rn"
+}
 
 // ordGenRaw: a raw streamable peer.  After the handshake 2-5 (thorough 2-8) POSTs: a JSON-RPC batch of
 // 1..16 messages (mostly notifications; sometimes with calls among them) or a single message, each
@@ -1182,7 +1194,7 @@ func ordSessionless(tr string) bool { return strings.HasPrefix(tr, "sl") || stri
 // the body is handed over.
 func ordGenRaw(rng *rand.Rand, tr string, maxLen int) *ordCase {
 	c := &ordCase{tr: tr, dir: "c2s", pv: ordLegacy[rng.Intn(len(ordLegacy))]}
-	gated := tr != "rh"
+	gated := tr == "rw" || tr == "rwj"
 	batchOK := gated || c.pv < protocolVersion20250618
 	dur := func() int { return ordDur(rng) }
 	c.msgs = append(c.msgs, ordMsg{dir: "c2s", kind: 'i', meth: "initialize", d: dur()}, ordMsg{dir: "c2s", kind: 'n', meth: "initialized", d: dur()})
@@ -1377,7 +1389,7 @@ func ordBodyCase(tr string, n, mask, salt int) *ordCase {
 	return c
 }
 
-var ordTransports = []string{"mem", "io", "sse", "sh", "shj", "she", "shje", "sl", "slj", "rw", "rwj", "rh", "run", "sn", "snj"}
+var ordTransports = []string{"mem", "io", "sse", "sh", "shj", "she", "shje", "sl", "slj", "rw", "rwj", "rh", "run", "sn", "snj", "rs", "rn"}
 
 func ordParse(lines []string) (*ordCase, bool) {
 	c := &ordCase{}
@@ -1483,7 +1495,7 @@ func TestVerifOrder(t *testing.T) {
 	// exhaustive: a raw streamable peer POSTs ONE batch of every composition of calls and notifications up to four
 	// members (pre-2025-06-18 batching; Mcp-Protocol-Version absent or present on rh), then a notification and a call
 	ci := 0
-	for _, tr := range []string{"rw", "rwj", "rh"} {
+	for _, tr := range []string{"rw", "rwj", "rh", "rs", "rn"} {
 		for n := 1; n <= 4; n++ {
 			for mask := 0; mask < 1<<n; mask++ {
 				ordRunCase(t, out, fmt.Sprintf("x%d", ci), ordBodyCase(tr, n, mask, ci))
